@@ -1,5 +1,230 @@
 import FcpptModel.Prelude.Proto
-/-! Driver for C08 — placeholder until the property's model is built. -/
+import FcpptModel.Spec.C08
+/-!
+Driver for C08.  `T` is `u` (std::size_t instantiation, components ≥ 0) or `s` (long).  Lists are
+`a,b,c` (length N ∈ {1,2,3}).  A grid "`d k`" is `object<long,N>(d, enc k)` with
+`enc k p = 1000*k + 1 + p0 + 10*p1 + 100*p2`.
+
+* `off T d p`                 offset / in_range_dim / contents
+* `offs T d m`                digest of `off` over all p with `lo ≤ p_i < d_i + m` (lo = 0 for u, -m for s)
+* `next T cur mn sp`          next_position
+* `nexts T mn sp lo hi`       digest of `next` over all cur in [lo,hi]^N
+* `range T mn sp`             min_less_sup, range_dim, range_size/size(), end_position, the visited positions
+* `ranges T mn lo hi`         digest of `range` over all sp in [lo,hi]^N
+* `mk d k` / `mkc d v`        function / value constructor: content, empty, cells in storage order
+* `all d`                     make_pos_range(d): size and positions
+* `refall d k`                make_pos_ref_range(grid): (pos,value) pairs
+* `at d k p`, `ats d k m`     in_range + at_optional (digest over 0 ≤ p_i < d_i + m)
+* `resize d k nd k2`          resize to nd with init = enc k2
+* `map d k a b`               map (x ↦ a*x+b)
+* `apply d1 k1 d2 k2 [d3 k3]` apply (a, bs ↦ fold (acc*1009 + b))
+* `fill d v k`                mkc d v, then fill with enc k
+* `clamp d p`                 clamped_min p, clamped_sup_signed p d, clamped_sup (clamped_min p) d
+* `clamps d m`                digest of `clamp` over all p with -m ≤ p_i ≤ d_i + m
+* `refsub d k smin ssup`      pos_ref_range(grid, clamped_min smin, clamped_sup_signed ssup d)
+* `refsubs d k smin m`        digest of `refsub` over all ssup with -m ≤ ssup_i ≤ d_i + m
+-/
 namespace Fcppt.C08.Drv
-def main : IO Unit := Fcppt.Proto.run (fun _ => "not-built")
+open Fcppt.Proto
+
+def il (l : List Int) : String := if l.isEmpty then "-" else intList l
+
+def posList (ps : List Pos) : String :=
+  if ps.isEmpty then "-" else "|".intercalate (ps.map il)
+
+def enc (k : Int) (p : Pos) : Int :=
+  1000 * k + 1 + (p.zipIdx.foldl (fun acc xi => acc + xi.1 * (10 : Int) ^ xi.2) 0)
+
+def exc {α : Type} (r : Except Fault α) (f : α → String) : String :=
+  match r with
+  | .ok a => f a
+  | .error e => e.name
+
+def gridStr (g : Grid Int) : String :=
+  s!"size={il g.size} cont={g.content} empty={b01 g.isEmpty} cells={il g.cells}"
+
+def mkGrid (d : List Int) (k : Int) : Except Fault (Grid Int) := Grid.mkFn d fun p => pure (enc k p)
+
+def refStr (l : List (Pos × Int)) : String :=
+  if l.isEmpty then "-" else "|".intercalate (l.map fun pv => il pv.1 ++ ":" ++ toString pv.2)
+
+/-- all tuples with `lo_i ≤ x_i < hi_i`, index 0 fastest (the enumeration order of the digests) -/
+def tuples (lo hi : List Int) : List Pos := box lo hi
+
+def digest (lines : List String) : String :=
+  "D " ++ hex64 (lines.foldl fnv fnvInit)
+
+def offLine (d p : List Int) : String :=
+  s!"off={offset p d} in={b01 (inRangeDim d p)} cont={contents d}"
+
+def nextLine (cur mn sp : Pos) : String := s!"next={il (next cur mn sp)}"
+
+def rangeLine (mn sp : Pos) : String :=
+  let hd := s!"mls={b01 (minLessSup mn sp)} dim={il (rangeDim mn sp)} size={rangeSize mn sp} end={il (endPos mn sp)}"
+  match posRange mn sp with
+  | .ok ps => s!"{hd} n={ps.length} ps={posList ps}"
+  | .error e => s!"{hd} {e.name}"
+
+def atLine (d : List Int) (k : Int) (p : Pos) : String :=
+  exc (mkGrid d k) fun g =>
+    exc (g.atOptional p) fun r =>
+      s!"in={b01 (g.inRange p)} at={match r with | some v => toString v | none => "none"}"
+
+def refsubLine (d : List Int) (k : Int) (smin ssup : Pos) : String :=
+  exc (mkGrid d k) fun g =>
+    let mn := clampedMin smin
+    exc (clampedSupSigned ssup d) fun sp =>
+      exc (g.posRefRange mn sp) fun l =>
+        s!"mn={il mn} sp={il sp} size={rangeSize mn sp} n={l.length} ref={refStr l}"
+
+def clampLine (d : List Int) (p : Pos) : String :=
+  exc (clampedSupSigned p d) fun css =>
+    s!"cmin={il (clampedMin p)} csups={il css} csup={il (clampedSup (clampedMin p) d)}"
+
+def applyF (a : Int) (bs : List Int) : Int := bs.foldl (fun acc b => acc * 1009 + b) a
+
+def okDims (ls : List (List Int)) : Bool :=
+  match ls with
+  | [] => true
+  | l :: _ => 1 ≤ l.length && l.length ≤ 3 && ls.all (·.length == l.length)
+
+def nonneg (l : List Int) : Bool := l.all (0 ≤ ·)
+
+/-- unsigned instantiation: every component must be representable -/
+def okT (t : String) (ls : List (List Int)) : Bool :=
+  (t == "s") || (t == "u" && ls.all nonneg)
+
+def handle (toks : List String) : String :=
+  let L := parseIntList
+  let I := String.toInt?
+  match toks with
+  | ["off", t, d, p] =>
+    match L d, L p with
+    | some d, some p => if okDims [d, p] && okT t [d, p] then offLine d p else "bad-op"
+    | _, _ => "bad-op"
+  | ["offs", t, d, m] =>
+    match L d, I m with
+    | some d, some m =>
+      if okDims [d] && okT t [d] && 0 ≤ m && (t == "u" || t == "s") then
+        let lo := d.map fun _ => if t == "u" then 0 else -m
+        digest ((tuples lo (d.map (· + m))).map (offLine d))
+      else "bad-op"
+    | _, _ => "bad-op"
+  | ["next", t, c, mn, sp] =>
+    match L c, L mn, L sp with
+    | some c, some mn, some sp => if okDims [c, mn, sp] && okT t [c, mn, sp] then nextLine c mn sp else "bad-op"
+    | _, _, _ => "bad-op"
+  | ["nexts", t, mn, sp, lo, hi] =>
+    match L mn, L sp, I lo, I hi with
+    | some mn, some sp, some lo, some hi =>
+      if okDims [mn, sp] && okT t [mn, sp, [lo]] then
+        digest ((tuples (mn.map fun _ => lo) (mn.map fun _ => hi + 1)).map fun c => nextLine c mn sp)
+      else "bad-op"
+    | _, _, _, _ => "bad-op"
+  | ["range", t, mn, sp] =>
+    match L mn, L sp with
+    | some mn, some sp => if okDims [mn, sp] && okT t [mn, sp] then rangeLine mn sp else "bad-op"
+    | _, _ => "bad-op"
+  | ["ranges", t, mn, lo, hi] =>
+    match L mn, I lo, I hi with
+    | some mn, some lo, some hi =>
+      if okDims [mn] && okT t [mn, [lo]] then
+        digest ((tuples (mn.map fun _ => lo) (mn.map fun _ => hi + 1)).map fun sp => rangeLine mn sp)
+      else "bad-op"
+    | _, _, _ => "bad-op"
+  | ["mk", d, k] =>
+    match L d, I k with
+    | some d, some k => if okDims [d] && nonneg d then exc (mkGrid d k) gridStr else "bad-op"
+    | _, _ => "bad-op"
+  | ["mkc", d, v] =>
+    match L d, I v with
+    | some d, some v => if okDims [d] && nonneg d then gridStr (Grid.mkConst d v) else "bad-op"
+    | _, _ => "bad-op"
+  | ["all", d] =>
+    match L d with
+    | some d =>
+      if okDims [d] && nonneg d then
+        exc (posRangeAll d) fun ps => s!"size={rangeSize (zeros d) d} n={ps.length} ps={posList ps}"
+      else "bad-op"
+    | _ => "bad-op"
+  | ["refall", d, k] =>
+    match L d, I k with
+    | some d, some k =>
+      if okDims [d] && nonneg d then
+        exc (mkGrid d k) fun g => exc g.posRefRangeAll fun l => s!"n={l.length} ref={refStr l}"
+      else "bad-op"
+    | _, _ => "bad-op"
+  | ["at", d, k, p] =>
+    match L d, I k, L p with
+    | some d, some k, some p => if okDims [d, p] && nonneg d && nonneg p then atLine d k p else "bad-op"
+    | _, _, _ => "bad-op"
+  | ["ats", d, k, m] =>
+    match L d, I k, I m with
+    | some d, some k, some m =>
+      if okDims [d] && nonneg d && 0 ≤ m then
+        digest ((tuples (zeros d) (d.map (· + m))).map (atLine d k))
+      else "bad-op"
+    | _, _, _ => "bad-op"
+  | ["resize", d, k, nd, k2] =>
+    match L d, I k, L nd, I k2 with
+    | some d, some k, some nd, some k2 =>
+      if okDims [d, nd] && nonneg d && nonneg nd then
+        exc (mkGrid d k) fun g => exc (g.resize nd (enc k2)) gridStr
+      else "bad-op"
+    | _, _, _, _ => "bad-op"
+  | ["map", d, k, a, b] =>
+    match L d, I k, I a, I b with
+    | some d, some k, some a, some b =>
+      if okDims [d] && nonneg d then
+        exc (mkGrid d k) fun g => exc (g.map fun x => a * x + b) gridStr
+      else "bad-op"
+    | _, _, _, _ => "bad-op"
+  | ["apply", d1, k1, d2, k2] =>
+    match L d1, I k1, L d2, I k2 with
+    | some d1, some k1, some d2, some k2 =>
+      if okDims [d1, d2] && nonneg d1 && nonneg d2 then
+        exc (mkGrid d1 k1) fun g1 => exc (mkGrid d2 k2) fun g2 => exc (Grid.apply applyF g1 [g2]) gridStr
+      else "bad-op"
+    | _, _, _, _ => "bad-op"
+  | ["apply", d1, k1, d2, k2, d3, k3] =>
+    match L d1, I k1, L d2, I k2, L d3, I k3 with
+    | some d1, some k1, some d2, some k2, some d3, some k3 =>
+      if okDims [d1, d2, d3] && nonneg d1 && nonneg d2 && nonneg d3 then
+        exc (mkGrid d1 k1) fun g1 => exc (mkGrid d2 k2) fun g2 => exc (mkGrid d3 k3) fun g3 =>
+          exc (Grid.apply applyF g1 [g2, g3]) gridStr
+      else "bad-op"
+    | _, _, _, _, _, _ => "bad-op"
+  | ["fill", d, v, k] =>
+    match L d, I v, I k with
+    | some d, some v, some k =>
+      if okDims [d] && nonneg d then exc ((Grid.mkConst d v).fill (enc k)) gridStr else "bad-op"
+    | _, _, _ => "bad-op"
+  | ["clamp", d, p] =>
+    match L d, L p with
+    | some d, some p =>
+      if okDims [d, p] && nonneg d then clampLine d p else "bad-op"
+    | _, _ => "bad-op"
+  | ["clamps", d, m] =>
+    match L d, I m with
+    | some d, some m =>
+      if okDims [d] && nonneg d && 0 ≤ m then
+        digest ((tuples (d.map fun _ => -m) (d.map (· + m + 1))).map (clampLine d))
+      else "bad-op"
+    | _, _ => "bad-op"
+  | ["refsub", d, k, smin, ssup] =>
+    match L d, I k, L smin, L ssup with
+    | some d, some k, some smin, some ssup =>
+      if okDims [d, smin, ssup] && nonneg d then refsubLine d k smin ssup else "bad-op"
+    | _, _, _, _ => "bad-op"
+  | ["refsubs", d, k, smin, m] =>
+    match L d, I k, L smin, I m with
+    | some d, some k, some smin, some m =>
+      if okDims [d, smin] && nonneg d && 0 ≤ m then
+        digest ((tuples (d.map fun _ => -m) (d.map (· + m + 1))).map (refsubLine d k smin))
+      else "bad-op"
+    | _, _, _, _ => "bad-op"
+  | _ => "bad-op"
+
+def main : IO Unit := Proto.run handle
+
 end Fcppt.C08.Drv
